@@ -100,4 +100,494 @@ theorem view_foot (cfg : Cfg) (w w' : World) (h : Foot inertK w w') : view cfg w
     have := cur_append_inert_cancelled cfg δ w.trace k
     simp [viewOf, hc, this]
 
+/-- `emit` leaves the retry state alone -/
+theorem emit_rs (P : RState → Prop) (cfg : Cfg) (tl : Bool) (ev : Event) (a s : Nat) (k : Option EClass)
+    (e : Option Exn) (st : Option StopReason) (c : Option Cause) (cl : Option Classification) :
+    ⦃fun w => ⌜P w.rs⌝⦄ emit cfg tl ev a s k e st c cl
+    ⦃post⟨fun _ w => ⌜P w.rs⌝, fun _ w => ⌜P w.rs⌝⟩⦄ := by
+  mvcgen [emit, metricHook, recordTimeline, swallowException, askMetric, askLog, ask]
+  all_goals (subst_vars; simp_all)
+
+/-- `_abort_outcome` reports ABORTED -/
+theorem abortOutcome_stop (cfg : Cfg) (tl : Bool) (a : Nat) :
+    ⦃fun _ => ⌜True⌝⦄ abortOutcome cfg tl a
+    ⦃post⟨fun o _ => ⌜o.stop = some .aborted⌝, fun _ _ => ⌜True⌝⟩⦄ := by
+  have h := emit_rs (fun r => r.lastStop = some .aborted) cfg tl
+  mvcgen [abortOutcome, emitAbortedOnce, buildOutcome, getRS, elapsed, setStop, modifyRS, h]
+  all_goals (subst_vars; simp_all)
+
+/-! ### where an escaping exception comes from -/
+
+/-- `e` was raised by a logged exchange other than an invocation of the operation -/
+def Raised (tr : List (Req × Ans)) (e : Exn) : Prop :=
+  ∃ x ∈ tr, isOp x.1 = false ∧ ∃ d, x.2 = Ans.raise e d
+
+theorem Raised.mono {t : List (Req × Ans)} {e : Exn} (δ : List (Req × Ans)) (h : Raised t e) :
+    Raised (δ ++ t) e := by
+  obtain ⟨x, hx, h1, h2⟩ := h
+  exact ⟨x, by simp [hx], h1, h2⟩
+
+theorem raisedBy_iff (t : List (Req × Ans)) (e : Exn) :
+    Mon.raisedBy (fun r => !isOp r) t e = true ↔ Raised t e := by
+  unfold Mon.raisedBy Raised
+  simp only [List.any_eq_true, Bool.and_eq_true, Bool.not_eq_true']
+  constructor
+  · rintro ⟨x, hx, h1, h2⟩
+    refine ⟨x, hx, h1, ?_⟩
+    split at h2
+    · rename_i e' d heq
+      exact ⟨d, by simp_all⟩
+    · cases h2
+  · rintro ⟨x, hx, h1, d, h2⟩
+    exact ⟨x, hx, h1, by simp [h2]⟩
+
+/-- postcondition "whatever escapes was raised by a callback other than the operation" -/
+abbrev orgPost : PostCond α (.except Exn (.arg World .pure)) :=
+  post⟨fun _ _ => ⌜True⌝, fun e w => ⌜Raised w.trace e⌝⟩
+
+theorem ask_org (r : Req) (hr : isOp r = false) : ⦃fun _ => ⌜True⌝⦄ ask r ⦃orgPost⦄ := by
+  mvcgen [ask]
+  all_goals (intros; exact ⟨_, List.mem_cons_self, hr, _, rfl⟩)
+
+section origin
+attribute [local spec] ask_org
+
+macro "org_close" : tactic => `(tactic| all_goals (
+  (try subst_vars) <;> (try intros) <;>
+  first
+    | rfl
+    | assumption
+    | trivial
+    | (simp_all; done)
+    | skip))
+
+theorem askMetric_org (ev : Event) (a s : Nat) (t : Tags) :
+    ⦃fun _ => ⌜True⌝⦄ askMetric ev a s t ⦃orgPost⦄ := by
+  mvcgen [askMetric]
+  org_close
+
+theorem askLog_org (ev : Event) (a s : Nat) (t : Tags) (ra : Option Int) :
+    ⦃fun _ => ⌜True⌝⦄ askLog ev a s t ra ⦃orgPost⦄ := by
+  mvcgen [askLog]
+  org_close
+
+attribute [local spec] askMetric_org askLog_org
+
+/-- what escapes `emit` is not an `Exception` and was raised by a hook -/
+abbrev emitPost : PostCond α (.except Exn (.arg World .pure)) :=
+  post⟨fun _ _ => ⌜True⌝, fun e w => ⌜e.isException = false ∧ Raised w.trace e⌝⟩
+
+theorem emit_org (cfg : Cfg) (tl : Bool) (ev : Event) (a s : Nat) (k : Option EClass) (e : Option Exn)
+    (st : Option StopReason) (c : Option Cause) (cl : Option Classification) :
+    ⦃fun _ => ⌜True⌝⦄ emit cfg tl ev a s k e st c cl ⦃emitPost⦄ := by
+  mvcgen [emit, metricHook, recordTimeline, swallowException]
+  org_close
+
+theorem setStop_org (s : StopReason) : ⦃fun _ => ⌜True⌝⦄ setStop s ⦃emitPost⦄ := by
+  mvcgen [setStop, modifyRS]
+
+attribute [local spec] emit_org setStop_org
+
+theorem emitAbortedOnce_org (cfg : Cfg) (tl : Bool) (a : Nat) :
+    ⦃fun _ => ⌜True⌝⦄ emitAbortedOnce cfg tl a ⦃emitPost⦄ := by
+  mvcgen [emitAbortedOnce, getRS]
+  org_close
+
+theorem callAttemptEnd_org (cfg : Cfg) (attempt : Nat) (cls : Option Classification) (exc : Option Exn)
+    (result : Option Nat) (d : AttemptDecision) (stop : Option StopReason) (cause : Option Cause)
+    (sleep : Option Nat) :
+    ⦃fun _ => ⌜True⌝⦄ callAttemptEnd cfg attempt cls exc result d stop cause sleep ⦃orgPost⦄ := by
+  mvcgen [callAttemptEnd, elapsed]
+  org_close
+
+attribute [local spec] emitAbortedOnce_org callAttemptEnd_org
+
+theorem handleAbortAttemptEnd_org (cfg : Cfg) (a : Nat) (e : Exn) :
+    ⦃fun _ => ⌜True⌝⦄ handleAbortAttemptEnd cfg a e ⦃orgPost⦄ := by
+  mvcgen [handleAbortAttemptEnd, getAS, modifyAS]
+  org_close
+
+theorem abortOutcome_org (cfg : Cfg) (tl : Bool) (a : Nat) :
+    ⦃fun _ => ⌜True⌝⦄ abortOutcome cfg tl a ⦃emitPost⦄ := by
+  mvcgen [abortOutcome, buildOutcome, getRS, elapsed]
+  org_close
+
+end origin
+
+/-- combine a footprint lemma with an origin lemma -/
+theorem leaf_of {α : Type} {x : M α} {O : Exn → World → Prop} (cfg : Cfg)
+    (hx : ∀ w0, ⦃fun w => ⌜Foot inertK w0 w⌝⦄ x ⦃footPost inertK w0⦄)
+    (ho : ⦃fun _ => ⌜True⌝⦄ x ⦃post⟨fun _ _ => ⌜True⌝, fun e w => ⌜O e w⌝⟩⦄) (v : Option St) :
+    ⦃fun w => ⌜view cfg w = v⌝⦄ x
+    ⦃post⟨fun _ w => ⌜view cfg w = v⌝, fun e w => ⌜view cfg w = v ∧ O e w⌝⟩⦄ := by
+  apply triple_of_run
+  intro w hw
+  have h1 := adequacy (hx w) w (Foot.refl _ w)
+  have h2 := adequacy ho w trivial
+  split <;> simp_all <;> (rw [← hw]; exact view_foot cfg _ _ h1)
+
+/-- "the view is `v`" on both exits -/
+abbrev same (cfg : Cfg) (v : Option St) : PostCond α (.except Exn (.arg World .pure)) :=
+  post⟨fun _ w => ⌜view cfg w = v⌝, fun _ w => ⌜view cfg w = v⌝⟩
+
+/-- "the view is `v`" on both exits, and what escapes is no `Exception` and comes from a hook -/
+abbrev sameE (cfg : Cfg) (v : Option St) : PostCond α (.except Exn (.arg World .pure)) :=
+  post⟨fun _ w => ⌜view cfg w = v⌝,
+       fun e w => ⌜view cfg w = v ∧ e.isException = false ∧ Raised w.trace e⌝⟩
+
+/-- "the view is `v`" on both exits, and what escapes comes from a hook -/
+abbrev sameR (cfg : Cfg) (v : Option St) : PostCond α (.except Exn (.arg World .pure)) :=
+  post⟨fun _ w => ⌜view cfg w = v⌝, fun e w => ⌜view cfg w = v ∧ Raised w.trace e⌝⟩
+
+/-! ### leaf procedures never move the view -/
+section leaves
+variable (v : Option St) (cfg : Cfg) (tl : Bool)
+
+theorem emit_v (ev : Event) (a s : Nat) (k : Option EClass) (e : Option Exn) (st : Option StopReason)
+    (c : Option Cause) (cl : Option Classification) :
+    ⦃fun w => ⌜view cfg w = v⌝⦄ emit cfg tl ev a s k e st c cl ⦃sameE cfg v⦄ :=
+  leaf_of cfg (fun w0 => emit_foot inertK w0 rfl rfl cfg tl ev a s k e st c cl)
+    (emit_org cfg tl ev a s k e st c cl) v
+
+theorem setStop_v (s : StopReason) :
+    ⦃fun w => ⌜view cfg w = v⌝⦄ setStop s
+    ⦃post⟨fun _ w => ⌜view cfg w = v⌝, fun _ _ => ⌜False⌝⟩⦄ := by
+  mvcgen [setStop, modifyRS]
+  all_goals (subst_vars; simp_all [view])
+
+theorem recordStrategySuccess_v : ⦃fun w => ⌜view cfg w = v⌝⦄ recordStrategySuccess cfg ⦃same cfg v⦄ :=
+  view_of_foot (view cfg) (fun w0 => recordStrategySuccess_foot inertK w0 rfl cfg) (view_foot cfg) v
+
+theorem stratRecordFailure_v (key : SKey) (k : EClass) :
+    ⦃fun w => ⌜view cfg w = v⌝⦄ stratRecordFailure cfg key k ⦃same cfg v⦄ :=
+  view_of_foot (view cfg) (fun w0 => stratRecordFailure_foot inertK w0 rfl cfg key k) (view_foot cfg) v
+
+theorem callStrategy_v (key : SKey) (kind : SKind) (ctx : BackoffCtx) :
+    ⦃fun w => ⌜view cfg w = v⌝⦄ callStrategy key kind ctx ⦃same cfg v⦄ :=
+  view_of_foot (view cfg) (fun w0 => callStrategy_foot inertK w0 rfl key kind ctx) (view_foot cfg) v
+
+theorem callClassifier_v (e : Exn) : ⦃fun w => ⌜view cfg w = v⌝⦄ callClassifier e ⦃same cfg v⦄ :=
+  view_of_foot (view cfg) (fun w0 => callClassifier_foot inertK w0 rfl e) (view_foot cfg) v
+
+theorem shouldClassifyResult_v (x : Nat) :
+    ⦃fun w => ⌜view cfg w = v⌝⦄ shouldClassifyResult cfg x ⦃same cfg v⦄ :=
+  view_of_foot (view cfg) (fun w0 => shouldClassifyResult_foot inertK w0 rfl cfg x) (view_foot cfg) v
+
+theorem callAttemptStart_v (a : Nat) : ⦃fun w => ⌜view cfg w = v⌝⦄ callAttemptStart cfg a ⦃same cfg v⦄ :=
+  view_of_foot (view cfg) (fun w0 => callAttemptStart_foot inertK w0 rfl cfg a) (view_foot cfg) v
+
+theorem callAttemptEndFromOutcome_v (a : Nat) (o : AOutcome) :
+    ⦃fun w => ⌜view cfg w = v⌝⦄ callAttemptEndFromOutcome cfg a o ⦃same cfg v⦄ :=
+  view_of_foot (view cfg) (fun w0 => callAttemptEndFromOutcome_foot inertK w0 rfl cfg a o) (view_foot cfg) v
+
+theorem callBeforeSleep_v (ctx : BackoffCtx) (s : Nat) :
+    ⦃fun w => ⌜view cfg w = v⌝⦄ callBeforeSleep cfg ctx s ⦃same cfg v⦄ :=
+  view_of_foot (view cfg) (fun w0 => callBeforeSleep_foot inertK w0 rfl cfg ctx s) (view_foot cfg) v
+
+theorem callSleepHandler_v (lvl : Lvl) (ctx : BackoffCtx) (s : Nat) :
+    ⦃fun w => ⌜view cfg w = v⌝⦄ callSleepHandler lvl ctx s ⦃same cfg v⦄ :=
+  view_of_foot (view cfg) (fun w0 => callSleepHandler_foot inertK w0 rfl lvl ctx s) (view_foot cfg) v
+
+theorem buildOutcome_v (ok : Bool) (value : Option Nat) (n : Nat) (ns : Option Nat) :
+    ⦃fun w => ⌜view cfg w = v⌝⦄ buildOutcome ok value n ns ⦃same cfg v⦄ :=
+  view_of_foot (view cfg) (fun w0 => buildOutcome_foot inertK w0 ok value n ns) (view_foot cfg) v
+
+theorem emitAbortedOnce_v (a : Nat) :
+    ⦃fun w => ⌜view cfg w = v⌝⦄ emitAbortedOnce cfg tl a ⦃sameE cfg v⦄ :=
+  leaf_of cfg (fun w0 => emitAbortedOnce_foot inertK w0 rfl rfl cfg tl a) (emitAbortedOnce_org cfg tl a) v
+
+theorem handleSleepDecision_v (act : SleepDecision) (a s : Nat) :
+    ⦃fun w => ⌜view cfg w = v⌝⦄ handleSleepDecision cfg tl act a s
+    ⦃post⟨fun r w => ⌜(r = act ∧ act ≠ .other) ∧ view cfg w = v⌝, fun _ w => ⌜view cfg w = v⌝⟩⦄ :=
+  view_of_foot' (view cfg) (fun w0 => handleSleepDecision_foot inertK w0 rfl rfl cfg tl act a s)
+    (view_foot cfg) v
+
+theorem handleSuccessAttemptEnd_v (a x : Nat) :
+    ⦃fun w => ⌜view cfg w = v⌝⦄ handleSuccessAttemptEnd cfg tl a x ⦃same cfg v⦄ :=
+  view_of_foot (view cfg) (fun w0 => handleSuccessAttemptEnd_foot inertK w0 rfl rfl rfl rfl cfg tl a x)
+    (view_foot cfg) v
+
+theorem handleAbortAttemptEnd_v (a : Nat) (e : Exn) :
+    ⦃fun w => ⌜view cfg w = v⌝⦄ handleAbortAttemptEnd cfg a e ⦃sameR cfg v⦄ :=
+  leaf_of cfg (fun w0 => handleAbortAttemptEnd_foot inertK w0 rfl cfg a e)
+    (handleAbortAttemptEnd_org cfg a e) v
+
+theorem raiseExhaustedCall_v : ⦃fun w => ⌜view cfg w = v⌝⦄ raiseExhaustedCall cfg ⦃same cfg v⦄ :=
+  view_of_foot (view cfg) (fun w0 => raiseExhaustedCall_foot inertK w0 rfl rfl cfg) (view_foot cfg) v
+
+theorem buildExhaustedOutcome_v : ⦃fun w => ⌜view cfg w = v⌝⦄ buildExhaustedOutcome cfg tl ⦃same cfg v⦄ :=
+  view_of_foot (view cfg) (fun w0 => buildExhaustedOutcome_foot inertK w0 rfl rfl cfg tl) (view_foot cfg) v
+
+theorem deliverCall_v (act : Action) (orig : Option Exn) (fb : ExhaustedFields) :
+    ⦃fun w => ⌜view cfg w = v⌝⦄ deliverCall act orig fb
+    ⦃post⟨fun r w => ⌜(r = none ∧ act = .continue_) ∧ view cfg w = v⌝, fun _ w => ⌜view cfg w = v⌝⟩⦄ :=
+  view_of_foot' (view cfg) (fun w0 => deliverCall_foot inertK w0 act orig fb) (view_foot cfg) v
+
+end leaves
+
+theorem triple_and {α : Type} {x : M α} {Q1 Q2 : α → World → Prop} {E1 E2 : Exn → World → Prop}
+    (h1 : ⦃fun _ => ⌜True⌝⦄ x ⦃post⟨fun a w => ⌜Q1 a w⌝, fun e w => ⌜E1 e w⌝⟩⦄)
+    (h2 : ⦃fun _ => ⌜True⌝⦄ x ⦃post⟨fun a w => ⌜Q2 a w⌝, fun e w => ⌜E2 e w⌝⟩⦄) :
+    ⦃fun _ => ⌜True⌝⦄ x ⦃post⟨fun a w => ⌜Q1 a w ∧ Q2 a w⌝, fun e w => ⌜E1 e w ∧ E2 e w⌝⟩⦄ := by
+  apply triple_of_run
+  intro w _
+  have a1 := adequacy h1 w trivial
+  have a2 := adequacy h2 w trivial
+  split <;> simp_all
+
+/-- like `leaf_of`, keeping a fact about the returned value -/
+theorem leaf_of' {α : Type} {x : M α} {R : α → Prop} {O : Exn → World → Prop} (cfg : Cfg)
+    (hx : ∀ w0, ⦃fun w => ⌜Foot inertK w0 w⌝⦄ x ⦃footPost inertK w0⦄)
+    (ho : ⦃fun _ => ⌜True⌝⦄ x ⦃post⟨fun a _ => ⌜R a⌝, fun e w => ⌜O e w⌝⟩⦄) (v : Option St) :
+    ⦃fun w => ⌜view cfg w = v⌝⦄ x
+    ⦃post⟨fun a w => ⌜R a ∧ view cfg w = v⌝, fun e w => ⌜view cfg w = v ∧ O e w⌝⟩⦄ := by
+  apply triple_of_run
+  intro w hw
+  have h1 := adequacy (hx w) w (Foot.refl _ w)
+  have h2 := adequacy ho w trivial
+  split <;> simp_all <;> (rw [← hw]; exact view_foot cfg _ _ h1)
+
+theorem abortOutcome_v (v : Option St) (cfg : Cfg) (tl : Bool) (a : Nat) :
+    ⦃fun w => ⌜view cfg w = v⌝⦄ abortOutcome cfg tl a
+    ⦃post⟨fun o w => ⌜o.stop = some .aborted ∧ view cfg w = v⌝,
+          fun e w => ⌜view cfg w = v ∧ e.isException = false ∧ Raised w.trace e⌝⟩⦄ := by
+  have h := leaf_of' (R := fun o => o.stop = some .aborted ∧ True) cfg
+    (fun w0 => abortOutcome_foot inertK w0 rfl rfl cfg tl a)
+    (triple_and (abortOutcome_stop cfg tl a) (abortOutcome_org cfg tl a)) v
+  simpa using h
+
+theorem deliverExecute_v (v : Option St) (cfg : Cfg) (tl : Bool) (act : Action) (o : AOutcome) :
+    ⦃fun w => ⌜view cfg w = v⌝⦄ deliverExecute cfg tl act o
+    ⦃post⟨fun r w => ⌜(r = none → act = .continue_) ∧ view cfg w = v⌝, fun _ w => ⌜view cfg w = v⌝⟩⦄ :=
+  view_of_foot' (view cfg) (fun w0 => deliverExecute_foot inertK w0 rfl rfl cfg tl act o) (view_foot cfg) v
+
+attribute [local spec] emit_v setStop_v recordStrategySuccess_v stratRecordFailure_v callStrategy_v
+  callClassifier_v shouldClassifyResult_v callAttemptStart_v callAttemptEndFromOutcome_v callBeforeSleep_v
+  callSleepHandler_v buildOutcome_v emitAbortedOnce_v handleSleepDecision_v handleSuccessAttemptEnd_v
+  handleAbortAttemptEnd_v raiseExhaustedCall_v buildExhaustedOutcome_v deliverCall_v abortOutcome_v
+  deliverExecute_v
+
+/-! ### the phases of a run, as the monitor sees them -/
+
+/-- nothing has been aborted or cancelled, nothing is wrong -/
+structure Live (m : St) : Prop where
+  aborted : m.aborted = false
+  cancelled : m.cancelled = none
+  bad : m.bad = false
+
+/-- …and the abort predicate has been polled since the last attempt / sleep -/
+structure Ready (cfg : Cfg) (m : St) : Prop extends Live m where
+  polled : cfg.abortIf = true → m.polled = true
+
+/-- an escaping exception is an abort, or comes from a callback other than the operation
+    (`.stuck`: model-only, ill-shaped answer stream) -/
+def Org (e : Exn) (w : World) : Prop := e.isAbort = true ∨ e = .stuck ∨ Raised w.trace e
+
+/-- what the verdict asks of a run that ends by raising `e` -/
+structure Fin (cfg : Cfg) (e : Exn) (w : World) : Prop where
+  bad : (cur cfg w.trace).bad = false
+  canc : ∀ c, (cur cfg w.trace).cancelled = some c → e = c ∧ c.isCancelKind = true
+  abt : (cur cfg w.trace).aborted = true → (cur cfg w.trace).cancelled = none → Org e w
+
+/-- …and, inside an attempt: after an abort only an abort or a non-`Exception` is in flight -/
+structure FinS (cfg : Cfg) (e : Exn) (w : World) : Prop extends Fin cfg e w where
+  strong : (cur cfg w.trace).aborted = true → (cur cfg w.trace).cancelled = none →
+    e.isAbort = true ∨ e.isException = false
+
+theorem view_eq_some {cfg : Cfg} {w : World} {m : St} :
+    view cfg w = some m ↔ cur cfg w.trace = m ∧ m.cancelled = none := by
+  unfold view
+  rw [viewOf_eq_some]
+  constructor
+  · rintro ⟨h1, h2⟩; exact ⟨h1, h1 ▸ h2⟩
+  · rintro ⟨h1, h2⟩; exact ⟨h1, h1 ▸ h2⟩
+
+theorem finS_of_live {cfg : Cfg} {w : World} {m : St} (e : Exn) (hv : view cfg w = some m)
+    (hm : Live m) : FinS cfg e w := by
+  obtain ⟨h1, h2⟩ := view_eq_some.mp hv
+  refine ⟨⟨by rw [h1]; exact hm.bad, ?_, ?_⟩, ?_⟩ <;> (rw [h1]; simp [hm.aborted, hm.cancelled])
+
+/-- the monitor after a poll that answered "go on" -/
+def pollOk (cfg : Cfg) (m : St) : St := if cfg.abortIf then { m with polled := true } else m
+
+theorem finS_of_view {cfg : Cfg} {w : World} {m : St} {e : Exn} (hv : view cfg w = some m)
+    (hb : m.bad = false)
+    (ha : m.aborted = true → e.isAbort = true ∨ (e.isException = false ∧ Raised w.trace e)) :
+    FinS cfg e w := by
+  obtain ⟨h1, h2⟩ := view_eq_some.mp hv
+  refine ⟨⟨by rw [h1]; exact hb, by rw [h1, h2]; simp, ?_⟩, ?_⟩
+  · rw [h1]; intro h _
+    rcases ha h with h | h
+    · exact Or.inl h
+    · exact Or.inr (Or.inr h.2)
+  · rw [h1]; intro h _
+    rcases ha h with h | h
+    · exact Or.inl h
+    · exact Or.inr h.1
+
+theorem step_dur (cfg : Cfg) (m : St) (r : Req) (e : Exn) (d : Nat) :
+    step cfg m (r, .raise e d) = step cfg m (r, .raise e 0) := by
+  cases r <;> simp [step]
+
+/-- one exchange, as the monitor sees it -/
+theorem ask_cur (cfg : Cfg) (r : Req) (m : St) :
+    ⦃fun w => ⌜cur cfg w.trace = m⌝⦄ ask r
+    ⦃post⟨fun a w => ⌜cur cfg w.trace = step cfg m (r, a) ∧ ∀ e d, ¬ a = Ans.raise e d⌝,
+          fun e w => ⌜cur cfg w.trace = step cfg m (r, .raise e 0) ∧ (isOp r = false → Raised w.trace e)⌝⟩⦄ := by
+  mvcgen [ask]
+  all_goals (subst_vars; simp_all [step_dur cfg _ r _ _])
+  all_goals (intro hr; exact ⟨_, List.mem_cons_self, hr, _, rfl⟩)
+
+theorem finS_iff {cfg : Cfg} {e : Exn} {w : World} : FinS cfg e w ↔
+    (cur cfg w.trace).bad = false ∧
+    (∀ c, (cur cfg w.trace).cancelled = some c → e = c ∧ c.isCancelKind = true) ∧
+    ((cur cfg w.trace).aborted = true → (cur cfg w.trace).cancelled = none → Org e w) ∧
+    ((cur cfg w.trace).aborted = true → (cur cfg w.trace).cancelled = none →
+      e.isAbort = true ∨ e.isException = false) :=
+  ⟨fun h => ⟨h.bad, h.canc, h.abt, h.strong⟩, fun h => ⟨⟨h.1, h.2.1, h.2.2.1⟩, h.2.2.2⟩⟩
+
+theorem fin_iff {cfg : Cfg} {e : Exn} {w : World} : Fin cfg e w ↔
+    (cur cfg w.trace).bad = false ∧
+    (∀ c, (cur cfg w.trace).cancelled = some c → e = c ∧ c.isCancelKind = true) ∧
+    ((cur cfg w.trace).aborted = true → (cur cfg w.trace).cancelled = none → Org e w) :=
+  ⟨fun h => ⟨h.bad, h.canc, h.abt⟩, fun h => ⟨h.1, h.2.1, h.2.2⟩⟩
+
+theorem viewOf_of_none {m : St} (h : m.cancelled = none) : viewOf m = some m := by
+  simp [viewOf, h]
+
+/-- the poll answered True -/
+def saysAbort : Ans → Bool
+  | .bool true _ => true
+  | _ => false
+
+theorem step_abortIf (cfg : Cfg) (m : St) (a : Ans) (hc : m.cancelled = none) :
+    step cfg m (.abortIf, a) = { m with polled := true, aborted := m.aborted || saysAbort a } := by
+  cases a <;> simp [step, hc, saysAbort]
+  rename_i b _
+  cases b <;> simp
+
+theorem saysAbort_false (a : Ans) (h : ∀ d, a = Ans.bool true d → False) : saysAbort a = false := by
+  cases a <;> simp_all [saysAbort]
+
+/-- the monitor after an attempt or a sleep that was preceded by a poll -/
+def afterOp (m : St) : St := { m with polled := false }
+
+def abortedOp (m : St) : St := { m with polled := false, aborted := true }
+
+def cancelledOp (m : St) (e : Exn) : St := { m with polled := false, cancelled := some e }
+
+theorem step_op_ok (cfg : Cfg) (m : St) (a : Ans) (hm : Ready cfg m)
+    (ha : ∀ e d, ¬ a = Ans.raise e d) (n : Nat) : step cfg m (.op n, a) = afterOp m := by
+  obtain ⟨⟨h1, h2, h3⟩, h4⟩ := hm
+  cases a <;> simp_all [step, afterOp] <;> (cases hab : cfg.abortIf <;> simp_all)
+
+theorem step_op_raise (cfg : Cfg) (m : St) (n : Nat) (e : Exn) (d : Nat) (hm : Ready cfg m) :
+    step cfg m (.op n, .raise e d) =
+      if e.isAbort then abortedOp m else if e.isCancelKind then cancelledOp m e else afterOp m := by
+  obtain ⟨⟨h1, h2, h3⟩, h4⟩ := hm
+  cases hab : cfg.abortIf <;> simp_all [step, afterOp, abortedOp, cancelledOp] <;>
+    (split <;> simp_all) <;> (split <;> simp_all)
+
+theorem step_sleeper_ok (cfg : Cfg) (m : St) (a : Ans) (hm : Ready cfg m)
+    (ha : ∀ e d, ¬ a = Ans.raise e d) (l : Lvl) (n : Nat) : step cfg m (.sleeper l n, a) = afterOp m := by
+  obtain ⟨⟨h1, h2, h3⟩, h4⟩ := hm
+  cases a <;> simp_all [step, afterOp] <;> (cases hab : cfg.abortIf <;> simp_all)
+
+theorem step_sleeper_raise (cfg : Cfg) (m : St) (l : Lvl) (n : Nat) (e : Exn) (d : Nat)
+    (hm : Ready cfg m) :
+    step cfg m (.sleeper l n, .raise e d) = if e.isCancelKind then cancelledOp m e else afterOp m := by
+  obtain ⟨⟨h1, h2, h3⟩, h4⟩ := hm
+  cases hab : cfg.abortIf <;> simp_all [step, afterOp, cancelledOp] <;> (split <;> simp_all)
+
+theorem checkAbort_spec (cfg : Cfg) (tl : Bool) (a : Nat) (m : St) (hm : Live m) :
+    ⦃fun w => ⌜view cfg w = some m⌝⦄ checkAbort cfg tl a
+    ⦃post⟨fun _ w => ⌜view cfg w = some (pollOk cfg m)⌝, fun e w => ⌜FinS cfg e w⌝⟩⦄ := by
+  obtain ⟨h1, h2, h3⟩ := hm
+  mvcgen [checkAbort, ask_cur]
+  all_goals ((try subst_vars) <;> (try intros) <;> (try simp only [view, finS_iff] at *) <;>
+    simp_all [viewOf_eq_some, viewOf_of_none, step_abortIf, saysAbort, pollOk, Org, Exn.isAbort,
+      Exn.isException])
+
+theorem Live.pollOk {cfg : Cfg} {m : St} (hm : Live m) : Ready cfg (pollOk cfg m) := by
+  obtain ⟨h1, h2, h3⟩ := hm
+  unfold C13.pollOk
+  split <;> refine ⟨⟨?_, ?_, ?_⟩, ?_⟩ <;> simp_all
+
+theorem Ready.afterOp {cfg : Cfg} {m : St} (hm : Ready cfg m) : Live (afterOp m) :=
+  ⟨hm.aborted, hm.cancelled, hm.bad⟩
+
+/-- what an attempt's `except` ladder finds -/
+structure OpErr (cfg : Cfg) (m : St) (e : Exn) (w : World) : Prop extends FinS cfg e w where
+  onAbort : e.isAbort = true → view cfg w = some (abortedOp m)
+  onOther : e.isAbort = false → e.isCancelKind = false → view cfg w = some (C13.afterOp m)
+
+theorem opErr_iff {cfg : Cfg} {m : St} {e : Exn} {w : World} : OpErr cfg m e w ↔
+    FinS cfg e w ∧ (e.isAbort = true → view cfg w = some (abortedOp m)) ∧
+    (e.isAbort = false → e.isCancelKind = false → view cfg w = some (C13.afterOp m)) :=
+  ⟨fun h => ⟨h.toFinS, h.onAbort, h.onOther⟩, fun h => ⟨h.1, h.2.1, h.2.2⟩⟩
+
+theorem isCancelKind_not_abort {e : Exn} (h : e.isCancelKind = true) : e.isAbort = false := by
+  cases e <;> simp_all [Exn.isCancelKind, Exn.isAbort]
+
+theorem isCancelKind_not_exception {e : Exn} (h : e.isCancelKind = true) : e.isException = false := by
+  cases e <;> simp_all [Exn.isCancelKind, Exn.isException]
+
+theorem opErr_of_cur {cfg : Cfg} {m : St} {e : Exn} {w : World} (hm : Ready cfg m)
+    (hc : cur cfg w.trace =
+      if e.isAbort then abortedOp m else if e.isCancelKind then cancelledOp m e else C13.afterOp m) :
+    OpErr cfg m e w := by
+  have h1 := hm.aborted
+  have h2 := hm.cancelled
+  have h3 := hm.bad
+  rw [opErr_iff, finS_iff]
+  by_cases ha : e.isAbort = true
+  · simp_all [view, viewOf_of_none, abortedOp, Org]
+  · by_cases hk : e.isCancelKind = true
+    · have := isCancelKind_not_abort hk
+      simp_all [view, cancelledOp]
+    · simp_all [view, viewOf_of_none, C13.afterOp]
+
+theorem finS_of_sleeper {cfg : Cfg} {m : St} {e : Exn} {w : World} (hm : Ready cfg m)
+    (hc : cur cfg w.trace = if e.isCancelKind then cancelledOp m e else C13.afterOp m) :
+    FinS cfg e w := by
+  have h1 := hm.aborted
+  have h2 := hm.cancelled
+  have h3 := hm.bad
+  rw [finS_iff]
+  by_cases hk : e.isCancelKind = true <;> simp_all [cancelledOp, C13.afterOp]
+
+/-- normalise views to monitor states and let `simp_all` do the rest -/
+macro "c13" : tactic => `(tactic| all_goals (
+  first
+    | ((try subst_vars) <;> (try intros) <;> (try simp only [view, finS_iff, fin_iff] at *) <;>
+       (simp_all +zetaDelta [viewOf_eq_some, viewOf_of_none, step_abortIf, saysAbort, pollOk, Org, Exn.isAbort,
+         Exn.isException, step_op_ok, step_op_raise, step_sleeper_ok, step_sleeper_raise, afterOp, abortedOp,
+         cancelledOp]; done))
+    | skip))
+
+theorem invokeOp_spec (cfg : Cfg) (a : Nat) (m : St) (hm : Ready cfg m) :
+    ⦃fun w => ⌜view cfg w = some m⌝⦄ invokeOp a
+    ⦃post⟨fun _ w => ⌜view cfg w = some (C13.afterOp m)⌝, fun e w => ⌜OpErr cfg m e w⌝⟩⦄ := by
+  have h1 := hm.aborted
+  have h2 := hm.cancelled
+  have h3 := hm.bad
+  mvcgen [invokeOp, ask_cur]
+  c13
+  all_goals (intros; first
+    | (refine opErr_of_cur hm ?_; simp_all +zetaDelta [view, viewOf_eq_some, step_op_raise]; done)
+    | (rename_i h
+       have := step_op_ok cfg m _ hm h.2
+       refine opErr_of_cur hm ?_
+       simp_all +zetaDelta [view, viewOf_eq_some, Exn.isAbort, Exn.isCancelKind]))
+
+theorem callSleeper_spec (cfg : Cfg) (s : Nat) (m : St) (hm : Ready cfg m) :
+    ⦃fun w => ⌜view cfg w = some m⌝⦄ callSleeper cfg s
+    ⦃post⟨fun _ w => ⌜view cfg w = some (C13.afterOp m)⌝, fun e w => ⌜FinS cfg e w⌝⟩⦄ := by
+  have h1 := hm.aborted
+  have h2 := hm.cancelled
+  have h3 := hm.bad
+  mvcgen [callSleeper, ask_cur]
+  c13
+  all_goals (intros; refine finS_of_sleeper hm ?_; simp_all +zetaDelta [view, viewOf_eq_some, step_sleeper_raise])
+
 end Redress.Props.C13
